@@ -575,7 +575,9 @@ def safe_glob(e):
             if ok:
                 prefix = W.unhx(fp.get('prefix', 'x'))
                 _PREFIX[e] = prefix
-                ok = not prefix.startswith('/') and not any(c in ('.', '..') for c in prefix.split('/'))
+                # a class that lists the separator contributes `/` to the invariant prefix (the known class separator_class of C08):
+                # such prefixes have empty components; they are not walked
+                ok = not prefix.startswith('/') and '//' not in prefix and not any(c in ('.', '..') for c in prefix.split('/'))
             _SAFE[e] = ok
     return _SAFE[e]
 
